@@ -8,7 +8,7 @@ from .core import Case, cD, cN, clist, cbool
 ID = "C15"
 PROPS_FILE = "Props/C15.v"
 IMPORTS = "From Verde Require Import Model.Neighbors Model.NeighborCases."
-SHARD = 60
+SHARD = 40
 RULE = ("KNeighbors: clouds of 3..30 points (jittered 1/8 lattice, uniform doubles, pure lattice with exact ties) with 1..12 query "
         "points including data points themselves and midpoints of data pairs (near ties), 1-D/2-D query and data arrays, extra "
         "coordinate arrays, every k = 1..n, reductions mean/median/min/max; a query whose k-th and (k+1)-th squared distances are "
@@ -95,59 +95,66 @@ def reshape2(rnd, *arrs):
 # ---------------------------------------------------------------------------
 # KNeighbors
 # ---------------------------------------------------------------------------
-def knn_case(vd, de, dn, dv, qe, qn, k, red, kind, extra=False):
+def knn_case(vd, de, dn, dv, qe, qn, combos, kind, extra=False):
+    """one cloud, one query set, several (reduction, k)"""
     coords = (de, dn) + ((np.zeros_like(de) + 7.0,) if extra else ())
     qcoords = (qe, qn) + ((np.zeros_like(qe) - 3.0,) if extra else ())
+    shape_ok, obs, entries = True, [], []
     try:
-        g = vd.KNeighbors(k=k, reduction=RED[red]) if red != "RMean" or k % 2 else vd.KNeighbors(k=k)
-        g.fit(coords, dv)
-        out = np.asarray(g.predict(qcoords))
-        shape_ok = out.shape == qe.shape
-        obs = fl(out.ravel())
-        cobs = "(Some %s)" % dl(out)
+        for red, k in combos:
+            g = vd.KNeighbors(k=k, reduction=RED[red]) if red != "RMean" or k % 2 else vd.KNeighbors(k=k)
+            g.fit(coords, dv)
+            out = np.asarray(g.predict(qcoords))
+            shape_ok = shape_ok and out.shape == qe.shape
+            obs.append({"reduction": red, "k": k, "prediction": fl(out.ravel())})
+            entries.append("(%s, %s, %s)" % (red, cN(k), dl(out)))
+        cobs = "(Some %s)" % clist(entries)
     except Exception as ex:  # noqa
         shape_ok, obs, cobs = False, "%s: %s" % (type(ex).__name__, ex), "None"
-    term = "c15_knn %s %s %s %s %s %s %s %s %s" % (red, cN(k), dl(de), dl(dn), dl(dv), dl(qe), dl(qn), cbool(shape_ok), cobs)
-    repro = ("import verde, numpy as np; g=verde.KNeighbors(k=%d, reduction=np.%s).fit((np.array(%r), np.array(%r)), np.array(%r)); "
-             "print(g.predict((np.array(%r), np.array(%r))))"
-             % (k, RED[red].__name__, fl(de), fl(dn), fl(dv), fl(qe), fl(qn)))
-    return Case({"fn": "KNeighbors", "k": k, "reduction": red, "easting": fl(de), "northing": fl(dn), "data": fl(dv),
+    term = "c15_knn %s %s %s %s %s %s %s" % (dl(de), dl(dn), dl(dv), dl(qe), dl(qn), cbool(shape_ok), cobs)
+    repro = ("import verde, numpy as np; c=(np.array(%r), np.array(%r)); d=np.array(%r); q=(np.array(%r), np.array(%r))\n"
+             "for red, k in %r: print(red, k, verde.KNeighbors(k=k, reduction={'RMean': np.mean, 'RMedian': np.median, 'RMin': np.min, 'RMax': np.max}[red]).fit(c, d).predict(q))"
+             % (fl(de), fl(dn), fl(dv), fl(qe), fl(qn), [list(c) for c in combos]))
+    return Case({"fn": "KNeighbors", "combos": [list(c) for c in combos], "easting": fl(de), "northing": fl(dn), "data": fl(dv),
                  "query_easting": fl(qe), "query_northing": fl(qn), "extra_coords": extra},
-                {"prediction": obs, "shape_ok": shape_ok}, term, repro, kind)
+                {"predictions": obs, "shape_ok": shape_ok}, term, repro, kind)
+
+
+def f32(a):
+    """values with a 24-bit significand (data stored as float32), as doubles"""
+    return np.asarray(a, dtype=np.float32).astype(float)
 
 
 def gen_knn(vd, rnd, tier, cases):
-    nclouds = 36 if tier == "quick" else 330
+    nclouds = 60 if tier == "quick" else 600
     reds = list(RED)
     for c in range(nclouds):
         mode = ["jitter", "uniform", "jitter", "lattice", "uniform", "far"][c % 6]
-        n = rnd.choice([3, 4, 5, 6, 7, 8, 9, 10, 12, 15, 20, 30]) if c % 9 else 30
+        n = rnd.choice([3, 4, 5, 6, 7, 8, 9, 10, 12, 15]) if c % 10 else rnd.choice([20, 30])
         de, dn = cloud(rnd, n, mode)
+        if n > 15 or c % 4 == 1:
+            de, dn = f32(de), f32(dn)
         dv = np.array([rnd.choice([rnd.uniform(-100, 100), float(rnd.randint(-5, 5)), rnd.uniform(0, 1)]) for _ in range(n)])
-        m = rnd.randint(1, 12)
+        m = rnd.randint(1, 12) if n <= 15 else rnd.randint(4, 8)
         qe, qn = queries(rnd, de, dn, m, mode)
+        if n > 15:
+            qe, qn = f32(qe), f32(qn)
         if c % 2:
             qe, qn = reshape2(rnd, qe, qn)
         if c % 3 == 0:
             de, dn, dv = reshape2(rnd, de, dn, dv)
         extra = c % 5 == 0
-        for k in range(1, n + 1):
-            if n <= 6:
-                rs = reds
-            elif k in (1, 2, n - 1, n) or k == qe.size:
-                rs = [reds[(k + c) % 4], reds[(k + c + 1) % 4]]
-            else:
-                rs = [reds[(k + c) % 4]]
-            for r in rs:
-                cases.append(knn_case(vd, de, dn, dv, qe, qn, k, r, "knn-" + mode, extra))
+        # every k = 1..n for each reduction (one case per reduction: the queries' keys are sorted once per case)
+        for r in (reds if n <= 15 else [reds[c % 4], reds[(c + 1) % 4]]):
+            cases.append(knn_case(vd, de, dn, dv, qe, qn, [(r, k) for k in range(1, n + 1)], "knn-%s-%s" % (mode, r[1:].lower()), extra))
     # the number of queries equals k (a reduction along the wrong axis keeps the shape)
     for n in (3, 5):
         de, dn = cloud(rnd, n, "jitter")
         dv = np.arange(1.0, n + 1)
         qe, qn = queries(rnd, de, dn, n, "uniform")
         for r in reds:
-            cases.append(knn_case(vd, de, dn, dv, qe, qn, n, r, "knn-square"))
-            cases.append(knn_case(vd, de, dn, dv, qe[:n - 1], qn[:n - 1], n - 1, r, "knn-square"))
+            cases.append(knn_case(vd, de, dn, dv, qe, qn, [(r, n)], "knn-square"))
+            cases.append(knn_case(vd, de, dn, dv, qe[:n - 1], qn[:n - 1], [(r, n - 1)], "knn-square"))
 
 
 # ---------------------------------------------------------------------------
@@ -158,46 +165,52 @@ PROJ = {
     "swap": (lambda e, n: (n, e)),
     "rotate": (lambda e, n: (0.6 * e - 0.8 * n, 0.8 * e + 0.6 * n)),
     "shear+offset": (lambda e, n: (e + 0.25 * n + 3.0, n - 1.5)),
-    "nonlinear": (lambda e, n: (e + 0.1 * n * n, np.sinh(n / 4))),
+    "nonlinear": (lambda e, n: (e + 0.0001 * n * n, n + 0.001 * e * e + np.arctan(e))),
 }
 
 
-def meddist_case(vd, e, n, k, pname, kind, extra=False):
+def meddist_case(vd, e, n, ks, pname, kind, extra=False):
     coords = (e, n) + ((np.zeros_like(e) + 2.0,) if extra else ())
     proj = PROJ.get(pname)
+    shape_ok, obs, entries = True, [], []
     try:
-        out = np.asarray(vd.median_distance(coords, k_nearest=k, projection=proj))
-        shape_ok = out.shape == e.shape
-        obs = fl(out.ravel())
-        cobs = "(Some %s)" % dl(out)
+        for k in ks:
+            out = np.asarray(vd.median_distance(coords, k_nearest=k, projection=proj))
+            shape_ok = shape_ok and out.shape == e.shape
+            obs.append({"k_nearest": k, "distances": fl(out.ravel())})
+            entries.append("(%s, %s)" % (cN(k), dl(out)))
+        cobs = "(Some %s)" % clist(entries)
     except Exception as ex:  # noqa
         shape_ok, obs, cobs = False, "%s: %s" % (type(ex).__name__, ex), "None"
     pe, pn = (e.ravel(), n.ravel()) if proj is None else proj(e.ravel(), n.ravel())
-    term = "c15_meddist %s %s %s %s %s" % (cN(k), dl(pe), dl(pn), cbool(shape_ok), cobs)
-    repro = "import verde, numpy as np; print(verde.median_distance((np.array(%r), np.array(%r)), k_nearest=%d))  # projection: %s" % (
-        fl(e), fl(n), k, pname)
-    return Case({"fn": "median_distance", "k_nearest": k, "easting": fl(e), "northing": fl(n), "projection": pname, "extra_coords": extra},
+    term = "c15_meddist %s %s %s %s" % (dl(pe), dl(pn), cbool(shape_ok), cobs)
+    repro = "import verde, numpy as np\nfor k in %r: print(k, verde.median_distance((np.array(%r), np.array(%r)), k_nearest=k))  # projection: %s" % (
+        list(ks), fl(e), fl(n), pname)
+    return Case({"fn": "median_distance", "k_nearest": list(ks), "easting": fl(e), "northing": fl(n), "projection": pname, "extra_coords": extra},
                 {"distances": obs, "shape_ok": shape_ok}, term, repro, kind)
 
 
 def gen_meddist(vd, rnd, tier, cases):
-    nclouds = 24 if tier == "quick" else 220
+    nclouds = 48 if tier == "quick" else 480
     for c in range(nclouds):
         mode = ["jitter", "lattice", "uniform", "far"][c % 4]
-        n = rnd.choice([2, 3, 4, 5, 6, 8, 9, 12, 16, 20, 30]) if c % 8 else 30
+        n = rnd.choice([2, 3, 4, 5, 6, 8, 9, 12, 16]) if c % 12 else rnd.choice([20, 30])
         e, nn = cloud(rnd, n, mode)
+        if n > 12 or c % 4 == 2:
+            e, nn = f32(e), f32(nn)
         if c % 6 == 1 and n >= 3:      # duplicated points: the "self" column is a zero either way
             e[1], nn[1] = e[0], nn[0]
         if c % 2:
             e, nn = reshape2(rnd, e, nn)
         pname = None if c % 3 else list(PROJ)[(c // 3) % len(PROJ)]
-        ks = range(1, n) if (n <= 12 or tier == "thorough") else sorted(set([1, 2, 3, 4, n // 2, n - 2, n - 1] + [rnd.randint(1, n - 1) for _ in range(4)]))
-        for k in ks:
-            cases.append(meddist_case(vd, e, nn, k, pname, "median_distance-" + mode, extra=(c % 5 == 0)))
+        ks = list(range(1, n))          # every k = 1..n-1
+        # one case for the odd k, one for the even k (the keys of every point are sorted once per case)
+        for sub, tag in ((ks[0::2], "odd"), (ks[1::2], "even")):
+            if sub:
+                cases.append(meddist_case(vd, e, nn, sub, pname, "median_distance-%s-%s" % (mode, tag), extra=(c % 5 == 0)))
     # regular grid of the docstring: corners see [1, 1, sqrt 2, 2]
     g = vd.grid_coordinates((5, 10, -20, -17), spacing=1)
-    for k in (1, 2, 3, 4, 5, 8):
-        cases.append(meddist_case(vd, g[0], g[1], k, None, "median_distance-grid"))
+    cases.append(meddist_case(vd, g[0], g[1], [1, 2, 3, 4, 5, 8], None, "median_distance-grid"))
 
 
 # ---------------------------------------------------------------------------
@@ -294,9 +307,11 @@ def gen_mask(vd, rnd, tier, cases):
     nr = 40 if tier == "quick" else 400
     for c in range(nr):
         mode = ["uniform", "jitter", "far"][c % 3]
-        n = rnd.randint(1, 12)
+        n = rnd.randint(1, 10)
         de, dn = cloud(rnd, n, mode)
-        qe, qn = queries(rnd, de, dn, rnd.randint(1, 12), mode)
+        qe, qn = queries(rnd, de, dn, rnd.randint(1, 10), mode)
+        if c % 4 == 3:
+            de, dn, qe, qn = f32(de), f32(dn), f32(qe), f32(qn)
         pname = None if c % 2 else list(PROJ)[(c // 2) % len(PROJ)]
         md = rnd.choice([rnd.uniform(0, 2), rnd.uniform(0, 0.5), 0.0,
                          float(np.hypot(qe[0] - de[0], qn[0] - dn[0]))])      # attained up to rounding: near tie, excluded
